@@ -175,7 +175,7 @@ var c17NeutralPaths = []string{"a.txt", "data1", "out.log", "sub/f.txt", "notes"
 var c17ExtPaths = []string{"sp ace.txt", " lead", "trail ", "two  blanks", "-dash", "--", "-n", "st*r", "q?m", "br[a]ck", "a*", "semi;colon", "amp&er", "pipe|p", "lt<gt>",
 	"par(en)", "hash#", "#hash", "~tilde", "quo'te", "dq\"uote", "$dollar", "$HOME", "back\\slash", "tick`t", "tab\there", "sub/sp ace", "excl!", "br{a,b}ce", "eq=ual", "per%cent", "$(id)", "new\nline"}
 var c17NeutralContents = []string{"Hello World", "Hello Moon", "abc", "42", "line one", "x", "The quick brown fox", "key=value", "a,b,c", "UPPER lower 123", "dots.and-dashes_ok", "path/like/value"}
-var c17ExtContents = []string{"", "", "a\n", "two lines\nend\n", "\n", " lead", "trail ", "two  blanks", "   ", "tab\there", "\tlt", "a\nb", "a\n\nb", "*", "a*", "?", "[a]", "* *", ";", "a;b", "&", "a&&b", "|", "a|b", "<", ">", "a>b", "(", ")", "(x)",
+var c17ExtContents = []string{"", "", "a\n", "two lines\nend\n", "\n", "one \ntwo", "x\t\ny", "a  \n  b", "end \n", " \n ", " lead", "trail ", "two  blanks", "   ", "tab\there", "\tlt", "a\nb", "a\n\nb", "*", "a*", "?", "[a]", "* *", ";", "a;b", "&", "a&&b", "|", "a|b", "<", ">", "a>b", "(", ")", "(x)",
 	"#", "# not a comment", "~", "~root", "'", "it's", "\"", "say \"hi\"", "$", "$HOME", "${PATH}", "$(id)", "`id`", "`", "\\", "a\\nb", "\\\\", "C:\\dir", "-n", "-e", "-E", "-neE", "-x", "--", "- n", "-n x",
 	"!", "!!", "{a,b}", "%s", "%d%%", "\\t", "$1", "$?", "a=b"}
 
@@ -223,7 +223,11 @@ func c17Gen(rng *gen.Rng, population string) *c17Hist {
 	}
 	content := func() string {
 		if extC && rng.Chance(45) {
-			return rng.Pick(c17ExtContents)
+			c := rng.Pick(c17ExtContents)
+			if rng.Chance(20) {
+				c += rng.Pick(c17ExtContents) // two special contents glued together: the features meet
+			}
+			return c
 		}
 		c := rng.Pick(c17NeutralContents)
 		if rng.Chance(4) {
